@@ -10,7 +10,7 @@
    when the delimiter set is constant.  Excluded by the hypotheses (known findings): empty delimiter list,
    unterminated string, dmax = strlen exactly (the call after the last token then reports ESZEROL). *)
 From Coq Require Import List ZArith Lia Bool.
-From SC Require Import Base Wp Cfg Comb CombProofs ModTok ProofsTok PropDefs SpecTok ProofsTokSeq.
+From SC Require Import Base Wp Cfg Comb CombProofs ModTok ProofsTok PropDefs SpecTok ProofsTokSeq ProofsTokReads.
 From SC.Gen Require Import Consts.
 Import ListNotations.
 Local Open Scope Z_scope.
@@ -84,6 +84,16 @@ Theorem C14_sequence_constant_delims : forall w hi m' p dl k s rs, (length (toke
     Forall (fun r => r = 0) nulls /\ length nulls = (k - length (tokens dl s))%nat.
 Proof. exact Forall2_tok_res_const. Qed.
 Print Assumptions C14_sequence_constant_delims.
+(* C02 for the tokeniser: on a terminated string a continuation call loads only the two cells, the rest of the string with its
+   terminator and the delimiter list with its terminator -- nothing at or beyond the original dest[dmax] *)
+Theorem C14_strtok_s_reads : forall c dmaxp ptr delim dl bos m p n s,
+  dmaxp <> 0 -> ptr <> 0 -> delim <> 0 -> p <> 0 -> chars_ok dl -> (length dl <= Z.to_nat (tok_delim_max c))%nat ->
+  str_at 1 m delim dl -> str_at 1 m p s -> chars_ok s -> (length s < n)%nat ->
+  load m 8 dmaxp = Z.of_nat n -> load m 8 ptr = p -> Z.of_nat n <= rmax_str c ->
+  reads_ok (fun x => dmaxp <= x < dmaxp + 8 \/ ptr <= x < ptr + 8 \/ p <= x < p + (zlen s + 1) \/ delim <= x < delim + (zlen dl + 1))
+           (strtok_s c 0 dmaxp delim ptr bos) m.
+Proof. exact strtok_s_next_reads. Qed.
+Print Assumptions C14_strtok_s_reads.
 (* the hypotheses are satisfiable: "a,b" at 1000 with dmax 4, *dmaxp at 3000, *ptr at 3008, "," at 2000 *)
 Example C14_sequence_hyps_satisfiable :
   let m := fun a => if a =? 1000 then 97 else if a =? 1001 then 44 else if a =? 1002 then 98 else
